@@ -2012,7 +2012,10 @@ func (ls *LState) Status(th *LState) string {
 
 func (ls *LState) Resume(th *LState, fn *LFunction, args ...LValue) (ResumeState, error, []LValue) {
 	isstarted := th.isStarted()
-	if !isstarted {
+	// the frame of the body: a thread made by coroutine.create has it
+	// already, and a thread that has ended needs none (the resume is refused
+	// below)
+	if !isstarted && !th.Dead && th.stack.IsEmpty() {
 		base := 0
 		th.stack.Push(callFrame{
 			Fn:         fn,
